@@ -271,6 +271,36 @@ fn huge_fork_probe(rep: &mut Report, seed: u64, r: usize, by_rc: bool, steps: us
     }
 }
 
+// ------------------------------------------------------------------ Fork::clone mid-stream
+/// A `Fork` is `Clone`; cloning it (the only way to split it by_rc and keep it) must carry the
+/// whole shared state: source position, queued frames and WHOSE they are. One step = borrow the
+/// two branches, pull one of them (A A B A B B ..., so each branch is ahead at times) and report
+/// the frame and both pending counts.
+fn fork_clone_conformance(rep: &mut Report, seed: u64) {
+    let mut rng = Rng::derive(seed, &[122]);
+    let mut n = 0;
+    for cap in [2usize, 3, 8] {
+        for pat in 0..3u64 {
+            let cs = format!("clone=1;cap={};pat={}", cap, pat);
+            let mk = |v: u64| USource::infinite(gen_frame, Probe::new()).fork(ring_buffer::Bounded::from_raw_parts((v as usize + 1) % cap, 0, vec![0f64; cap]));
+            let step = |f: &mut dasp_signal::Fork<USource<f64>, Vec<f64>>, i: u64| {
+                let (mut a, mut b) = f.by_ref();
+                // three pull patterns; in each both branches lead at times, by at most 2
+                let pull_a = match pat {
+                    0 => [true, true, false, true, false, false][(i % 6) as usize],
+                    1 => [false, false, true, false, true, true][(i % 6) as usize],
+                    _ => [true, false, false, true, true, false][(i % 6) as usize],
+                };
+                let x = if pull_a { a.next() } else { b.next() };
+                (x.to_bits(), a.pending_frames(), b.pending_frames())
+            };
+            n += checks::cloneconf::check_clone_state("fork", &cs, mk, step, rep, &mut rng, 18, 14, 12);
+        }
+    }
+    EVALS.with(|c| c.set(c.get() + n));
+    rep.hit_n("clone_conformance_scripts", n);
+}
+
 // ------------------------------------------------------------------ by_rc: one handle dropped
 /// by_rc branches are independent owners: either handle may be dropped at any point and the
 /// survivor must go on receiving exactly its own next frames (first whatever is still queued for
@@ -459,6 +489,8 @@ fn main() {
     let lean = cli.stage == "miri";
     match cli.stage.as_str() {
         "main" | "release" | "asan" => {
+            rep.oblige("clone_conformance_scripts", 1);
+            fork_clone_conformance(&mut rep, cli.seed);
             rep.oblige("rc_handle_dropped", 1);
             rep.oblige("rc_lagging_handle_dropped", 1);
             let len = if cli.stage == "asan" { 10 } else { cli.t(12, 18) };
